@@ -68,6 +68,8 @@ func chunkedReader(x *X, name string, data []byte, chunk int) *SimReader {
 	}
 	// half of the streams hand over their last bytes together with io.EOF
 	r.EOFWithData = x != nil && x.P != nil && (x.P.Run+int64(len(data)))%2 == 0
+	// and some begin with a read that delivers nothing
+	r.ZeroFirst = x != nil && x.P != nil && (x.P.Run+int64(len(data)))%5 == 0
 	return r
 }
 
